@@ -101,7 +101,7 @@ fn case1<T: Elem>(case: u64, spline: bool, args: &Args, ev: &mut Ev, log: &mut E
             }
         });
         // (a') a large batch mixing in-range and outside queries must be answered as a whole
-        if case % 6 == 0 {
+        if (case / 3) % 2 == 0 {
             let sizes = [1023usize, 1024, 1025, 2000, 4097, 5000];
             let size = sizes[(case / 6) as usize % sizes.len()];
             let pool: Vec<T> = inside.iter().chain(outside.iter()).copied().collect();
@@ -230,6 +230,30 @@ fn case2<T: Elem>(case: u64, args: &Args, ev: &mut Ev, log: &mut EventLog) {
                 }
             }
         });
+        if (case / 3) % 4 == 0 {
+            let sizes = [1024usize, 1500, 4097];
+            let size = sizes[(case / 12) as usize % sizes.len()];
+            let vx: Vec<T> = (0..size).map(|i| qx[(i * 5 + 1) % qx.len()]).collect();
+            let vy: Vec<T> = (0..size).map(|i| qy[(i * 5 + 1) % qy.len()]).collect();
+            for (kind, shape) in [(QKind::S1, vec![size]), (QKind::S2, vec![size / 4, 4])] {
+                let n: usize = shape.iter().product();
+                let a = Query::from_vec(vx[..n].to_vec(), &shape, kind);
+                let b = Query::from_vec(vy[..n].to_vec(), &shape, kind);
+                match on.many(&a, &b) {
+                    Outcome::Ok(_) => ev.add("large_batches_answered", 1),
+                    Outcome::Untypeable => {}
+                    o => {
+                        ev.violation(
+                            "C06:finite-query-rejected",
+                            &format!("2-D interp_array({}) with {n} finite queries -> {}", a.name(), o.detail()),
+                            case,
+                            spec2_json(&spec_on),
+                        );
+                        return;
+                    }
+                }
+            }
+        }
         match query_all2(&mut rng, on, &spec_on, &qx, &qy) {
             Err(f) => ev.violation(
                 "C06:finite-query-rejected",
